@@ -214,7 +214,7 @@ fn build_impl_output(
 ) -> TokenStream {
     // Build impl generics combining trait generics with socket generic
     let mut impl_generics = generics.clone();
-    impl_generics.params.push(syn::parse_quote!(S));
+    impl_generics.params.push(syn::parse_quote!(__ZlinkS));
 
     // Create trait generics without bounds for impl line
     let mut trait_generics_no_bounds = generics.clone();
@@ -227,15 +227,15 @@ fn build_impl_output(
     // Build where clause combining existing constraints with socket constraint and trait bounds
     let combined_where_clause = Some(build_combined_where_clause(
         where_clause.clone(),
-        syn::parse_quote!(S: #crate_path::connection::socket::Socket),
+        syn::parse_quote!(__ZlinkS: #crate_path::connection::socket::Socket),
         generics,
     ));
 
     quote! {
-        impl #impl_generics #trait_name #trait_generics_no_bounds for #crate_path::Connection<S>
+        impl #impl_generics #trait_name #trait_generics_no_bounds for #crate_path::Connection<__ZlinkS>
         #combined_where_clause
         {
-            type Socket = S;
+            type Socket = __ZlinkS;
 
             #(#methods)*
             #(#chain_method_impls)*
@@ -261,21 +261,21 @@ fn build_chain_extension_trait(
         /// Extension trait for adding proxy calls to any chain.
         ///
         /// This trait provides methods to add proxy calls to a chain of method calls.
-        pub trait #chain_trait_name<'c, S, ReplyParams, ReplyError>
+        pub trait #chain_trait_name<'c, __ZlinkS, __ZlinkReplyParams, __ZlinkReplyError>
         where
-            S: #crate_path::connection::socket::Socket,
-            ReplyParams: ::serde::Deserialize<'c> + ::core::fmt::Debug,
-            ReplyError: ::serde::Deserialize<'c> + ::core::fmt::Debug,
+            __ZlinkS: #crate_path::connection::socket::Socket,
+            __ZlinkReplyParams: ::serde::Deserialize<'c> + ::core::fmt::Debug,
+            __ZlinkReplyError: ::serde::Deserialize<'c> + ::core::fmt::Debug,
         {
             #(#chain_extension_methods)*
         }
 
-        impl<'c, S, ReplyParams, ReplyError> #chain_trait_name<'c, S, ReplyParams, ReplyError>
-            for #crate_path::connection::chain::Chain<'c, S, ReplyParams, ReplyError>
+        impl<'c, __ZlinkS, __ZlinkReplyParams, __ZlinkReplyError> #chain_trait_name<'c, __ZlinkS, __ZlinkReplyParams, __ZlinkReplyError>
+            for #crate_path::connection::chain::Chain<'c, __ZlinkS, __ZlinkReplyParams, __ZlinkReplyError>
         where
-            S: #crate_path::connection::socket::Socket,
-            ReplyParams: ::serde::Deserialize<'c> + ::core::fmt::Debug,
-            ReplyError: ::serde::Deserialize<'c> + ::core::fmt::Debug,
+            __ZlinkS: #crate_path::connection::socket::Socket,
+            __ZlinkReplyParams: ::serde::Deserialize<'c> + ::core::fmt::Debug,
+            __ZlinkReplyError: ::serde::Deserialize<'c> + ::core::fmt::Debug,
         {
             #(#chain_extension_impls)*
         }
